@@ -24,10 +24,24 @@ def build(v, O, dens_value, dens_unit, vol_value, vol_unit):
     if v.mode == 'mass': kw['mass_density'] = Quantity(dens_value, dens_unit)
     else: kw['number_density'] = Quantity(dens_value, dens_unit)
     if vol_unit: kw['volume'] = Quantity(vol_value, vol_unit)
-    if v.kind == 'element': return Element(v.spec.split('*')[0], proportion=int(v.spec.split('*')[1]) if '*' in v.spec else 1, natural=v.natural, **kw)
+    if v.kind == 'element': return Element(v.spec.split('*')[0], proportion=(float(v.spec.split('*')[1]) if '.' in v.spec.split('*')[1] else int(v.spec.split('*')[1])) if '*' in v.spec else 1, natural=v.natural, **kw)
     if v.kind == 'substance': return Substance(v.spec, natural=v.natural, **kw)
     if v.kind == 'subdict': return Substance({s: n for s, n in zip(v.spec, (v.n1, v.n2, v.n3))}, natural=v.natural, **kw)
     return Material({s: n for s, n in zip(v.spec, (v.n1, v.n2, v.n3))}, natural=v.natural, norm_type=NORMS[v.norm], **kw)
+'''
+SPECVOL_SRC = '''
+def run(v, O):
+    # a mass density written as a specific volume (the units module converts between reciprocal dimensions)
+    kw = {'volume': Quantity(v.V, 'l')}
+    a = build_kind(v, Quantity(v.d, v.u_inv), kw)
+    b = build_kind(v, Quantity(1 / (v.d * v.k), 'g/cm3'), kw)      # the same density in g/cm3: 1 / (d k), k = cm3/g per unit of u_inv
+    out = [('rho from a specific volume', O.close(a.mass_density.value('g/cm3'), 1 / (v.d * v.k))), ('same number density', O.close(a.number_density.value('cm-3'), b.number_density.value('cm-3'))),
+           ('same mass', O.close(a.mass.value('g'), b.mass.value('g')))]
+    return out
+def build_kind(v, rho, kw):
+    if v.kind == 'element': return Element(v.spec, natural=True, mass_density=rho, **kw)
+    if v.kind == 'substance': return Substance(v.spec, natural=True, mass_density=rho, **kw)
+    return Material(v.spec, natural=True, mass_density=rho, **kw)
 '''
 ADD_SRC = '''
 def run(v, O):
@@ -106,7 +120,7 @@ VOL_UNITS = [('l', 'cm3'), ('cm3', 'm3'), ('m3', 'l'), ('ml', 'gal')]
 def scenarios(tier, seed):
     rnd = random.Random(seed)
     S = []
-    objs = [('element', 'B', None), ('element', 'O{17-2}', None), ('element', 'O*2', None), ('element', 'Fe{56}*3', None), ('substance', 'H2O', None), ('substance', 'Ca(OH)2', None),
+    objs = [('element', 'B', None), ('element', 'O{17-2}', None), ('element', 'O*2', None), ('element', 'Fe{56}*3', None), ('element', 'O*0.5', None), ('element', 'C*0.25', None), ('substance', 'H2O', None), ('substance', 'Ca(OH)2', None),
             ('subdict', ['H', 'O'], None), ('material', ['H2O', 'CO2'], 'NUMBER_FRACTION'), ('material', ['N2', 'O2', 'Ar'], 'NUMBER'),
             ('material', ['H2O', 'NaCl'], 'MASS_FRACTION'), ('material', ['Fe2O3'], 'NUMBER_FRACTION')]
     if tier != 'quick':
@@ -137,6 +151,10 @@ def scenarios(tier, seed):
             S.append(Scenario(f'add/{kind}/{j}/{mode}', ADD_SRC, inp, ['v.d > 0', 'v.V > 0', 'v.n1 > 0', 'v.n2 > 0', 'v.n3 > 0'],
                               consts={'kind': kind, 'spec': spec, 'norm': norm, 'mode': mode, 'natural': j % 2 == 0, 'u1': u1, 'w1': 'l', 'existing': existing, 'new': new},
                               preamble=PRE, what=f'{kind} {spec} with {mode} density, then add({existing}) and add({new})', samples=1))
+    for kind, spec in (('element', 'B'), ('substance', 'H2O'), ('material', {'H2O': 1, 'NaCl': 2})):
+        for u_inv, k in (('cm3/g', 1.0), ('l/kg', 1.0), ('m3/kg', 1000.0)):
+            S.append(Scenario(f'specific-volume/{kind}/{u_inv}', SPECVOL_SRC, {'d': 'real', 'V': 'real'}, ['v.d > 0', 'v.V > 0'], consts={'kind': kind, 'spec': spec, 'u_inv': u_inv, 'k': k}, preamble=PRE,
+                              what=f'{kind} with the mass density given as a specific volume in {u_inv}', samples=1))
     S.append(Scenario('canary/mass', SRC.replace("O.close(mass, rho * Vcm3)", "O.close(mass, 1.001 * rho * Vcm3)"), {'d': 'real', 'V': 'real'}, ['v.d > 0', 'v.V > 0'],
                       consts={'kind': 'substance', 'spec': 'H2O', 'norm': None, 'mode': 'mass', 'natural': True, 'u1': 'kg/m3', 'u2': 'g/cm3', 'w1': 'l', 'w2': 'cm3'}, preamble=PRE, canary=True))
     return S
